@@ -823,5 +823,30 @@ def case(ctx, kind, geom, sl=None, vol=None, ratio=None):
         outer = g.det_to_src(Ao, Uo)
         ctx.eq('det_to_src(outer)', outer,
                [[tolist(g.det_to_src(x, y)) for y in (u1, u2)] for x in (a1, a2)])
+        if multi_u:
+            # broadcasting *within* the detector parameters: (2,1) against (1,2)
+            def col(x, y, shape):
+                arr = np.empty(2, dtype=object)
+                arr[0], arr[1] = x, y
+                if ctx.sym:
+                    from symnp.sarray import wrap
+                    return wrap(arr, np.dtype('float64')).reshape(shape)
+                return arr.astype(float).reshape(shape)
+            Ub = (col(u1[0], u2[0], (2, 1)), col(u1[1], u2[1], (1, 2)))
+            want = [[tolist(g.detector.surface((p, q))) for q in (u1[1], u2[1])] for p in (u1[0], u2[0])]
+            ctx.eq('surface(broadcast-within-detector-parameters)', g.detector.surface(Ub), want)
+            want = [[tolist(g.det_point_position(a1, (p, q))) for q in (u1[1], u2[1])] for p in (u1[0], u2[0])]
+
+            def one(x):
+                arr = np.empty((1, 1), dtype=object)
+                arr[0, 0] = x
+                if ctx.sym:
+                    from symnp.sarray import wrap
+                    return wrap(arr, np.dtype('float64'))
+                return arr.astype(float)
+            A11 = tuple(one(x) for x in a1) if multi_a else one(a1)
+            ctx.eq('det_point_position((1,1)-angle, broadcast-within-detector-parameters)',
+                   g.det_point_position(A11, Ub), want)
+            ctx.eq('det_point_position(scalar-angle, 2d-detector-parameter-arrays)', g.det_point_position(a1, Ub), want)
         return
     raise ValueError(kind)
